@@ -386,14 +386,17 @@ fn gen_writes(rng: &mut Rng, n: usize) -> (Vec<WriteStep>, WriteStep) {
 }
 
 pub fn spare_choices(rng: &mut Rng, maxlen: usize) -> Option<usize> {
-    match rng.weighted(&[30, 25, 6, 6, 6, 6, 8]) {
+    match rng.weighted(&[30, 25, 6, 6, 6, 6, 8, 8, 5]) {
         0 => Some(1),
         1 => Some(rng.range(2, 4)),
         2 => Some(maxlen.saturating_sub(1).max(1)),
         3 => Some(maxlen),
         4 => Some(maxlen + 1),
         5 => Some(8 * maxlen),
-        _ => None,
+        6 => None,
+        // anything in between (capacity = k * longest + r for arbitrary k, r)
+        7 => Some(rng.range(1, 8 * maxlen + 8)),
+        _ => Some(rng.range(1, 3) * maxlen + rng.range(0, 2)),
     }
 }
 
